@@ -117,6 +117,9 @@ def make_world(fs):
             for m in more:
                 s = posixpath.join(s, str(m))
             self.s = s
+            # the file the path refers to (spelling-independent); equality
+            # and hashing stay literal, as for pathlib
+            self.k = posixpath.normpath(s) if s else s
 
         def __fspath__(self):
             return self.s
@@ -168,61 +171,61 @@ def make_world(fs):
             return FPath(posixpath.relpath(self.s, str(o)))
 
         def resolve(self):
-            return self
+            return FPath(self.k)
 
         def exists(self):
-            return self.s in fs.files or self.s in fs.dirs
+            return self.k in fs.files or self.k in fs.dirs
 
         def is_dir(self):
-            return self.s in fs.dirs
+            return self.k in fs.dirs
 
         def is_file(self):
-            return self.s in fs.files
+            return self.k in fs.files
 
         def mkdir(self, parents=False, exist_ok=False):
-            fs.dirs.add(self.s)
+            fs.dirs.add(self.k)
 
         def touch(self, mode=0o666, exist_ok=True):
             # creates an EMPTY (unloadable) file if there is none
-            if self.s in fs.files:
+            if self.k in fs.files:
                 if not exist_ok:
                     raise FileExistsError(self.s)
                 return
             fs.log.append("touch %s" % self.s)
-            f = fs.new_file(self.s)
+            f = fs.new_file(self.k)
             f.broken = True
             f.touched = True
 
         def unlink(self, missing_ok=False):
-            if self.s not in fs.files:
+            if self.k not in fs.files:
                 if missing_ok:
                     return
                 raise FileNotFoundError(self.s)
             # not a fault point (the statement's points are HDF5 writes,
             # creations, copies, file close and rename)
             fs.log.append("unlink %s" % self.s)
-            f = fs.files.pop(self.s)
+            f = fs.files.pop(self.k)
             if f.is_input:
                 fs.input_violations.append("input %s unlinked" % self.s)
 
         def rename(self, dst):
             dst = FPath(dst)
             fs.tick("rename %s -> %s" % (self.s, dst.s))
-            f = fs.files.pop(self.s)
+            f = fs.files.pop(self.k)
             if f.is_input:
                 fs.input_violations.append("input %s renamed" % self.s)
-            old = fs.files.get(dst.s)
+            old = fs.files.get(dst.k)
             if old is not None and old.is_input:
                 fs.input_violations.append("input %s overwritten by rename"
                                            % dst.s)
-            fs.files[dst.s] = f
+            fs.files[dst.k] = f
 
     class pathlib_shim:
         Path = FPath
 
     class Handle:
         def __init__(self, path, mode):
-            self.path, self.mode = FPath(path).s, mode
+            self.path, self.mode = FPath(path).k, mode
             self.filename = self.path
             fs.tick("open %s %s" % (self.path, mode))
             if mode == "w":
@@ -375,8 +378,8 @@ def make_world(fs):
             self.path = FPath(path)
             self.handle = Handle(path, "r")
             self.h5file = self.handle
-            k = sorted(fs.files).index(self.path.s) if \
-                self.path.s in fs.files else 0
+            k = sorted(fs.files).index(self.path.k) if \
+                self.path.k in fs.files else 0
             self.config = Cfg(
                 experiment={"date": "2020-01-0%d" % (k + 1),
                             "time": "10:00:00", "run index": 1,
@@ -465,6 +468,14 @@ def scenario(fs, FPath, p):
         out = "/d/out.rtdc"
     elif variant == "same-as-input":
         out = inputs[0]
+    elif variant == "other-spelling-of-input":
+        # the same file, spelled differently (".." component)
+        out = "/d/sub/../" + inputs[0].rsplit("/", 1)[1] if ext == ".rtdc" \
+            else "/d/sub/../in0"
+        fs.dirs.add("/d/sub")
+        if ext != ".rtdc":
+            fs.new_file("/d/in0.rtdc", is_input=True)
+            inputs = inputs + ["/d/in0.rtdc"]
     elif variant == "input-without-suffix":
         out = inputs[0][:-len(ext)] if ext == ".rtdc" else "/d/in0"
         if ext != ".rtdc":
@@ -599,7 +610,8 @@ def cases(tier, seed):
                             dict(task=t, kind=kind, out="distinct",
                                  stale=False, warn=True)))
         if t != "split":
-            for variant in ("same-as-input", "input-without-suffix"):
+            for variant in ("same-as-input", "input-without-suffix",
+                            "other-spelling-of-input"):
                 if t == "tdms2rtdc":
                     continue      # .tdms inputs cannot be .rtdc outputs
                 out.append(("%s raise %s" % (t, variant),
@@ -701,6 +713,9 @@ def replay_same_path(p):
             _make_input(pin2, 1)
             h0 = hashlib.sha256(open(pin, "rb").read()).hexdigest()
             pout = pin if p["out"] == "same-as-input" else pin[:-5]
+            if p["out"] == "other-spelling-of-input":
+                os.mkdir(os.path.join(td, "sub"))
+                pout = os.path.join(td, "sub", "..", os.path.basename(pin))
             try:
                 if p["task"] == "join":
                     cli.join(paths_in=[pin, pin2], path_out=pout)
